@@ -440,6 +440,11 @@ class FoldRules:
             for n in walk_local(fn):
                 if isinstance(n, ast.Call) and dotted(n.func) in ("exec", "eval", "globals", "setattr", "vars", "locals", "__import__"):
                     bad.append((qual, n))
+        for qual, m, fn in self.repo.all_funcs():
+            if m.name == "resolve" and fn.decorator_list:
+                ctx.ob("DYN", f"{qual}/undecorated", False,
+                       f"decorated resolver function ({[norm(d) for d in fn.decorator_list]}): the analysed body is not what runs",
+                       node=fn, mod=m)
         ctx.ob("DYN", "resolve.py/dynamic-features", not bad,
                f"exec/eval/globals/setattr would blind the analysis: {[(q, norm(n)[:40]) for q, n in bad]}",
                node=bad[0][1] if bad else None, mod=self.m, nontrivial=False)
